@@ -210,6 +210,11 @@ class Timers:
         except Exception as e:  # noqa
             self.viol("getDelayedCalls-raised-%s" % type(e).__name__, repr(e))
             return
+        # fast path: exactly the pending calls, each once
+        want_ids = {id(c.dc) for c in self.calls if c.status == "pending"}
+        if len(got) == len(want_ids) and all(id(dc) in want_ids for dc in got) \
+                and len({id(dc) for dc in got}) == len(got):
+            return
         bydc = {id(c.dc): c for c in self.calls if c.dc is not None}
         ids = []
         for dc in got:
@@ -263,14 +268,14 @@ class Timers:
             raise RuntimeError("harness exception inside a timed call:\n" + self.harness_exc[0])
 
     # ---- alphabet ----
-    def enabled(self, cap, max_scripted, scripts):
+    def enabled(self, cap, max_scripted, scripts, scripted_delays=DELAYS):
         evs = []
         nuser = sum(1 for c in self.calls if c.status == "pending" and c.user)
         if nuser < cap:
             for d in DELAYS:
                 evs.append(("call", d, 0))
             if self.scripted_used < max_scripted:
-                for d in DELAYS:
+                for d in scripted_delays:
                     for si in scripts:
                         evs.append(("call", d, si))
         for k in range(len(self.targets())):
